@@ -5,6 +5,8 @@ import Vata.Proofs.IsectModel
 import Vata.Proofs.InclUpTotal
 import Vata.Proofs.PropAux
 import Vata.Proofs.Equivariance
+import Vata.Proofs.InclUpBdd
+import Vata.Proofs.InclDown
 /-!
 # C19 – Results are invariant under renaming/reordering and obey the language laws
 
@@ -213,6 +215,46 @@ theorem C19_renaming_keeps_sizes (f : Nat → Nat) (A : TA) :
 
 example : (reindex (· + 10) RenameEx.exA).states = [11, 12] ∧ RenameEx.exA.states = [1, 2] := by decide
 
+/-! ### "every inclusion algorithm returns the same verdict" – also across twins -/
+
+/-- any verdicts of the models of the inclusion algorithms – explicit upward, downward non-recursive, downward recursive,
+downward recursive / non-recursive with a relation `R`, BDD bottom-up upward – agree, even when each is run on a
+differently renamed twin of the pair (`f₁ … g₃` injective on the states of the operand they rename): the verdict of one
+algorithm on one twin is the verdict of every other algorithm on every other twin.  The `Sim` models run on the
+original pair (they validate `R`, which is a relation on the original states) -/
+theorem C19_inclusion_algorithms_agree (A B : TA) (R : Rel) (f₁ g₁ f₂ g₂ f₃ g₃ : Nat → Nat)
+    (hf₁ : InjOnStates f₁ A) (hg₁ : InjOnStates g₁ B) (hf₂ : InjOnStates f₂ A) (hg₂ : InjOnStates g₂ B)
+    (hf₃ : InjOnStates f₃ A) (hg₃ : InjOnStates g₃ B)
+    (n₀ n₁ n₂ n₃ n₄ n₅ n₆ : Nat) (b₀ b₁ b₂ b₃ b₄ b₅ b₆ : Bool) (c₀ c₁ c₂ c₃ c₄ c₅ c₆ : InclUp.Cert)
+    (h₀ : checkInclUp A B n₀ = some (b₀, c₀))
+    (h₁ : checkInclDownNonrec (reindex f₁ A) (reindex g₁ B) n₁ = some (b₁, c₁))
+    (h₂ : checkInclDownRec (reindex f₂ A) (reindex g₂ B) n₂ = some (b₂, c₂))
+    (h₃ : checkInclUpBdd (reindex f₃ A) (reindex g₃ B) n₃ = some (b₃, c₃))
+    (h₄ : inclDownSim A B R n₄ = some (b₄, c₄))
+    (h₅ : inclDownNonrecSim A B R n₅ = some (b₅, c₅))
+    (h₆ : checkInclUp (reindex f₁ A) (reindex g₁ B) n₆ = some (b₆, c₆)) :
+    b₁ = b₀ ∧ b₂ = b₀ ∧ b₃ = b₀ ∧ b₄ = b₀ ∧ b₅ = b₀ ∧ b₆ = b₀ := by
+  have e₀ := InclUp.checkInclUp_iff h₀
+  have e₁ := (checkInclDownNonrec_iff h₁).trans (incl_equivariant f₁ g₁ A B hf₁ hg₁)
+  have e₂ := (checkInclDownRec_iff h₂).trans (incl_equivariant f₂ g₂ A B hf₂ hg₂)
+  have e₃ := (checkInclUpBdd_iff h₃).trans (incl_equivariant f₃ g₃ A B hf₃ hg₃)
+  have e₄ := inclDownSim_iff h₄
+  have e₅ := inclDownNonrecSim_iff h₅
+  have e₆ := (InclUp.checkInclUp_iff h₆).trans (incl_equivariant f₁ g₁ A B hf₁ hg₁)
+  have key : ∀ b : Bool, (b = true ↔ Incl A B) → b = b₀ := fun b e => by
+    cases b <;> cases b₀ <;> simp_all
+  exact ⟨key _ e₁, key _ e₂, key _ e₃, key _ e₄, key _ e₅, key _ e₆⟩
+
+-- twins of the pair `exG ⊄ exH` (the `g(a,b)` shape): every model answers `false` on its twin
+example : (checkInclUp InclDownEx.exG InclDownEx.exH 20).map (·.1) = some false ∧
+    (checkInclDownNonrec (reindex (· + 10) InclDownEx.exG) (reindex (fun q => 7 * q + 3) InclDownEx.exH) 10).map (·.1) = some false ∧
+    (checkInclDownRec (reindex (fun q => 2 * q) InclDownEx.exG) (reindex (· + 1) InclDownEx.exH) 10).map (·.1) = some false ∧
+    (checkInclUpBdd (reindex (· + 5) InclDownEx.exG) (reindex (· + 5) InclDownEx.exH) 20).map (·.1) = some false ∧
+    (inclDownSim InclDownEx.exG InclDownEx.exH [] 10).map (·.1) = some false :=
+  ⟨rfl, rfl, rfl, rfl, rfl⟩
+example : InjOnStates (· + 10) InclDownEx.exG ∧ InjOnStates (fun q => 7 * q + 3) InclDownEx.exH :=
+  ⟨by intro q q' _ _ h; simp only at h; omega, by intro q q' _ _ h; simp only at h; omega⟩
+
 /-!
 ## not yet proved
 
@@ -222,7 +264,8 @@ example : (reindex (· + 10) RenameEx.exA).states = [11, 12] ∧ RenameEx.exA.st
   hypothesis, see C05.
 * **Dumped-and-reloaded form**: the round trip is proved on the level of descriptions (C13), not as a `LangEq` between
   tree automata.
-* **"Every inclusion algorithm returns the same verdict"**: see C01 – proved for the model of the upward selection
-  against the reference only.
+* **"Every inclusion algorithm returns the same verdict"**: `C19_inclusion_algorithms_agree` covers the models of the
+  explicit upward and downward selections and of the BDD bottom-up upward algorithm (C01, C07); the selection *upward with
+  simulation* has no model, and the word-automata algorithms are C09 (`C09_all_algorithms_agree`).
 -/
 end Vata.Props
